@@ -1,4 +1,5 @@
 """C09 - reliability-layer property judged on recorded executions (see conn_judge / specs/Trace_Conn.tla)."""
+from props import packing, wire
 from props import conn_judge as J
 
 
@@ -6,6 +7,9 @@ def run(ctx):
     ctx.level = "model_checking"
     ctx.rule = ("events of recorded executions of two real endpoints judged by TLC against Trace_Conn; distinct = recv + build events; "
                 "non-trivial = every recv/build event (each is checked against the full clause set)")
+    wire.run(ctx)
+    packing.model(ctx)
+    packing.grid(ctx, "C09", [512, 513, 1095, 1096, 1472, 1500] if ctx.quick else list(range(512, 1501, 2)))
     J.run_scenarios(ctx, "C09", scenarios(ctx))
 
 
